@@ -131,7 +131,7 @@ TypeOK == /\ ops \in 0..MaxOps /\ phase \in {"Idle", "Running"}
           /\ (nest # <<0, 0>> => lastop = "nest")
           /\ (phase = "Running" => call.api \in Apis(SeedLang[seed]))
 \* documents stay small enough to enumerate every byte position (bound of the exhaustive claim)
-DocBound == Len(Flat(doc)) <= 200
+DocBound == Len(Flat(doc)) <= 400
 \* a call never changes the model document (calls are observations)
 ErrGivesOriginalInv == (phase = "Idle" /\ outcome = "err" /\ HasOrig(call.api)) => ret = orig
 =============================================================================
